@@ -149,7 +149,12 @@ func c17Terminal(p sev1alpha1.PodMigrationJobPhase) bool {
 type c17Cfg struct {
 	name      string
 	kind      string // key prefix: rf (all ReservationFirst configurations) | direct
-	mode      sev1alpha1.PodMigrationJobMode
+	mode      sev1alpha1.PodMigrationJobMode // the mode in force for the job (what the oracle judges by)
+	// how the mode comes about: the job names it (default), or leaves spec.mode empty and the controller's defaultJobMode
+	// applies (modeFromDefault); ctlDefault is the controller's defaultJobMode ("" = the package default, ReservationFirst).
+	// An explicit spec.mode wins over the controller default (seed C17-6).
+	modeFromDefault bool
+	ctlDefault      sev1alpha1.PodMigrationJobMode
 	presetRef bool // the user supplied ReservationRef; the user (environment) creates that reservation
 	maxFaults int
 	maxK      int // fault events "the k-th write of this reconcile fails" exist for k = 1..maxK (0: 5); checked against the observed maximum
@@ -501,9 +506,13 @@ func (s *c17Sys) newReconciler() *Reconciler {
 	}
 	// Same shape as newTestReconciler() in controller_test.go (no object limiters, fake arbitrator), with the fake clock,
 	// the production reservation interpreter and the recording evictor plugged into the two nil interpreter fields.
+	args := c17Args.DeepCopyObject().(*deschedulerconfig.MigrationControllerArgs)
+	if s.cfg.ctlDefault != "" {
+		args.DefaultJobMode = string(s.cfg.ctlDefault)
+	}
 	return &Reconciler{
 		Client:                 s.cl,
-		args:                   c17Args.DeepCopyObject().(*deschedulerconfig.MigrationControllerArgs),
+		args:                   args,
 		eventRecorder:          c17NopRecorder{},
 		reservationInterpreter: reservation.NewInterpreter(c17Mgr{c: s.cl}),
 		evictorInterpreter:     s,
@@ -520,7 +529,7 @@ func c17NewSys(cfg *c17Cfg, res *mc.Result) *c17Sys {
 	job := &sev1alpha1.PodMigrationJob{
 		ObjectMeta: metav1.ObjectMeta{Name: c17JobName, UID: c17JobUID, CreationTimestamp: metav1.Time{Time: c17T0}},
 		Spec: sev1alpha1.PodMigrationJobSpec{
-			Mode:   cfg.mode,
+			Mode:   map[bool]sev1alpha1.PodMigrationJobMode{false: cfg.mode, true: ""}[cfg.modeFromDefault],
 			TTL:    &metav1.Duration{Duration: c17TTL},
 			PodRef: &corev1.ObjectReference{Namespace: c17NS, Name: c17PodName},
 		},
@@ -1033,7 +1042,7 @@ var c17Assumptions = []string{
 	"reservation status values are produced with koord-scheduler's own setters (pkg/util/reservation: SetReservationUnschedulable/Available/Expired/Succeeded); 'rsv-expired' is also offered for a never-scheduled reservation (older schedulers expire those; the current reservation controller only expires assigned ones)",
 	"the target pod is replaced at most once per history (same name, new UID, on node-b - the node the reservation can be scheduled to - or, thorough tier, on its old node); one job, one reservation, two nodes",
 	"preemption for a reservation cannot be exercised: the production interpreter returns Preemption()==nil and the package's Reservation wrapper NeedPreemption()==false, so 'or preemption has completed' is unreachable code in this build",
-	"the job is user-created (no job-created-by annotation), not paused, TTL 5m, no object limiters (as in newTestReconciler)",
+	"the job is user-created (no job-created-by annotation), not paused, TTL 5m, no object limiters (as in newTestReconciler); its mode is explicit, or (mode-origin parts) left empty so that the controller's defaultJobMode applies",
 }
 
 // c17Run explores one configuration. cumShare is the fraction of the unit's wall-clock budget that may be used up when
@@ -1111,9 +1120,12 @@ func TestVerifC17RF(t *testing.T) {
 
 func TestVerifC17Aux(t *testing.T) {
 	env := mc.LoadEnv()
-	share := []float64{0.5, 0.6, 1.0} // cumulative budget shares of the parts
+	// cumulative budget shares of the parts: after-eviction, direct, the three mode-origin parts (m0..m2), then the rest
+	share := []float64{0.35, 0.45, 1.0}
+	mshare := []float64{0.55, 0.65, 0.7}
 	if env.Thorough() {
-		share = []float64{0.3, 0.4, 0.75, 1.0}
+		share = []float64{0.25, 0.33, 0.75, 1.0}
+		mshare = []float64{0.4, 0.47, 0.5}
 	}
 	// second half of the life cycle: everything that can follow an issued eviction (pod gone / replaced, reservation
 	// consumed / expired / deleted, TTL, restart, write failures), deep enough to continue after Succeeded
@@ -1122,6 +1134,14 @@ func TestVerifC17Aux(t *testing.T) {
 		maxFaults: env.Pick(1, 2), depth: env.Pick(6, 8), replaceA: env.Thorough()}, share[0])
 	c17Run(t, env, &c17Cfg{name: "direct-hist", kind: "direct", mode: sev1alpha1.PodMigrationJobModeEvictionDirectly,
 		maxFaults: env.Pick(1, 2), depth: env.Pick(6, 9), replaceA: env.Thorough()}, share[1])
+	// where the mode comes from: an explicit ReservationFirst under a controller whose default is EvictDirectly stays
+	// reservation-first; an empty spec.mode follows the controller default (both ways)
+	c17Run(t, env, &c17Cfg{name: "rf-explicit-under-direct-default-hist", kind: "rf", mode: sev1alpha1.PodMigrationJobModeReservationFirst,
+		ctlDefault: sev1alpha1.PodMigrationJobModeEvictionDirectly, maxFaults: 1, depth: env.Pick(5, 7)}, mshare[0])
+	c17Run(t, env, &c17Cfg{name: "rf-by-controller-default-hist", kind: "rf", mode: sev1alpha1.PodMigrationJobModeReservationFirst,
+		modeFromDefault: true, maxFaults: 1, depth: env.Pick(5, 7)}, mshare[1])
+	c17Run(t, env, &c17Cfg{name: "direct-by-controller-default-hist", kind: "direct", mode: sev1alpha1.PodMigrationJobModeEvictionDirectly,
+		modeFromDefault: true, ctlDefault: sev1alpha1.PodMigrationJobModeEvictionDirectly, maxFaults: 1, depth: env.Pick(5, 7)}, mshare[2])
 	if !env.Thorough() {
 		// migration of a Pending pod (see below), shallower in the quick tier
 		c17Run(t, env, &c17Cfg{name: "rf-pending-pod-hist", kind: "rf", mode: sev1alpha1.PodMigrationJobModeReservationFirst, pending: true,
